@@ -1,9 +1,9 @@
 package main
 
 import (
+	"fmt"
 	"go/token"
 	"go/types"
-	"fmt"
 	"strings"
 
 	"golang.org/x/tools/go/ssa"
@@ -31,8 +31,9 @@ func propC17(c *Ctx, r *Report) {
 	// P1
 	r.rule("C17-P1/executed-status", 1, "a debited batch is marked executed at the executing height")
 	{
-		debits := findCalls(rb, "pegnet.Pegnet.SubFromBalance")
-		sets := findCalls(rb, setName)
+		rbb := c.bodyOf(rb, "pegnet.Pegnet.SubFromBalance") // recordBatch, or the closure/helper its per-transaction body was moved into
+		debits := findCalls(rbb, "pegnet.Pegnet.SubFromBalance")
+		sets := findCalls(rbb, setName)
 		var bad []string
 		if len(debits) != 1 || len(sets) != 1 {
 			bad = append(bad, fmt.Sprintf("%d debit and %d status call sites", len(debits), len(sets)))
@@ -44,8 +45,7 @@ func propC17(c *Ctx, r *Report) {
 			if !instrDominates(debits[0], set) {
 				bad = append(bad, "status can be set without the debit")
 			}
-			l := innermostLoop(rb, set.Block())
-			if l == nil || !l.blocks[debits[0].Block()] || !everyIterationPasses(l, set.Block()) {
+			if okk, _ := c.everyPassFam(set); !okk {
 				bad = append(bad, "an iteration that debits can complete (e.g. through the PEG-request `continue`) without marking the batch executed: its effects are applied while the status stays pending")
 			}
 			ev, _ := errValueOf(set)
@@ -77,11 +77,11 @@ func propC17(c *Ctx, r *Report) {
 		return map[string]AVal{"isDone": cBool(false), "ValidatePegTx": nilVal, "Validate": nilVal, "IsReplayTransaction": {K: ATuple, Tup: []AVal{cBool(false), nilVal}}, "HasPEGRequest": cBool(false)}
 	}
 	type rej struct {
-		name  string
-		key   string
-		val   AVal
-		want  string
-		h     uint32
+		name string
+		key  string
+		val  AVal
+		want string
+		h    uint32
 	}
 	cases := []rej{
 		{"held batch fails ValidatePegTx (from 2.0)", "ValidatePegTx", fresh, "-2", v20 + 10},
@@ -166,9 +166,9 @@ func propC17(c *Ctx, r *Report) {
 	// P4 amounts
 	r.rule("C17-P4/recorded-amounts", 2, "amounts in history are the amounts credited")
 	{
-		hist := findCalls(rb, "pegnet.Pegnet.SetTransactionHistoryConvertedAmount")
+		hist := c.findCallsFam(rb, "pegnet.Pegnet.SetTransactionHistoryConvertedAmount")
 		var credit ssa.CallInstruction
-		for _, a := range findCalls(rb, "pegnet.Pegnet.AddToBalance") {
+		for _, a := range c.findCallsFam(rb, "pegnet.Pegnet.AddToBalance") {
 			if typePath(a.Common().Args[3]) == "fat2.Transaction.Conversion" {
 				credit = a
 			}
@@ -177,14 +177,14 @@ func propC17(c *Ctx, r *Report) {
 		okIdx := len(hist) == 1 && hist[0].Common().Args[3] != nil
 		r.check(okk && okIdx, "C17-P4/recorded-amounts", "converted amount in history = amount credited", c.pos(rb.Pos()), "", "SetTransactionHistoryConvertedAmount is not given the credited Convert result")
 		if okk {
-			r.check(instrDominates(hist[0], credit) || instrDominates(credit, hist[0]), "C17-P4/recorded-amounts", "history amount and credit on the same path", c.ipos(hist[0]), "", "the converted amount can be credited without being recorded (or vice versa)")
+			r.check(hist[0].Parent() == credit.Parent() && (instrDominates(hist[0], credit) || instrDominates(credit, hist[0])), "C17-P4/recorded-amounts", "history amount and credit on the same path", c.ipos(hist[0]), "", "the converted amount can be credited without being recorded (or vice versa)")
 		}
 	}
 	// (PEG yield/refund provenance is C16/second-pass-provenance; reuse the same facts here)
 	rp := c.fn("node.Pegnetd.recordPegnetRequests")
 	{
-		hist := findCalls(rp, "pegnet.Pegnet.SetTransactionHistoryPEGConvertedRequestAmount")
-		adds := findCalls(rp, "pegnet.Pegnet.AddToBalance")
+		hist := c.findCallsFam(rp, "pegnet.Pegnet.SetTransactionHistoryPEGConvertedRequestAmount")
+		adds := c.findCallsFam(rp, "pegnet.Pegnet.AddToBalance")
 		okk := len(hist) == 1 && len(adds) == 2
 		if okk {
 			ha := hist[0].Common().Args
